@@ -1,6 +1,6 @@
 (* C15 -- PatProofs.v : lemmas about the StringMatcher model (Pat/Translate.v, Pat/Ere.v). *)
 From Coq Require Import List Arith NArith Bool Lia.
-From Muscle Require Import Gen.Consts Pat.Ere Pat.EreProofs Pat.Translate Pat.Simple Pat.TranslateProofs Pat.DenoteProofs.
+From Muscle Require Import Gen.Consts Pat.Ere Pat.EreProofs Pat.Translate Pat.Simple Pat.TranslateProofs Pat.DenoteProofs Pat.UniqueProofs.
 Import ListNotations.
 Local Open Scope N_scope.
 
@@ -32,6 +32,33 @@ Proof.
            s_pattern s_valid s_negate s_multi s_simple s_uvlist s_ranges s_regexp app];
       try (split; reflexivity);
       destruct (engine (c0 :: cs)); split; reflexivity.
+Qed.
+
+(* ------------------------------------------------------------------ REGEXVALID is set iff a regex was compiled for THIS pattern *)
+
+Lemma valid_iff_compiled : forall engine st0 p simple,
+  let st := fst (set_pattern engine st0 p simple) in
+  (s_valid st, if s_valid st then s_regexp st else None) =
+  match regex_string p simple with
+  | Some re => match engine re with RxOk m => (true, Some m) | RxErr => (false, None) end
+  | None => (false, None)
+  end.
+Proof.
+  intros engine [p0 v0 n0 m0 s0 u0 r0 x0] p simple. unfold regex_string, set_pattern.
+  destruct (if simple then can_match_multiple p else (has_regex_tokens p, false)) as [multi only].
+  destruct simple.
+  - destruct (strip_negate p) as [neg str]. cbn [snd].
+    destruct (simple_body str) as [[ranges rp] str'].
+    destruct v0, ranges as [|r1 rs], rp as [|c0 cs], str' as [|d0 ds];
+      cbv [free_regex set_uvlist set_regex set_ranges set_negate set_multi set_pat fst snd is_nil
+           s_pattern s_valid s_negate s_multi s_simple s_uvlist s_ranges s_regexp app];
+      try reflexivity;
+      match goal with |- context [engine ?x] => destruct (engine x) end; reflexivity.
+  - destruct v0, p as [|c0 cs];
+      cbv [free_regex set_uvlist set_regex set_ranges set_negate set_multi set_pat fst snd is_nil
+           s_pattern s_valid s_negate s_multi s_simple s_uvlist s_ranges s_regexp app];
+      try reflexivity;
+      destruct (engine (c0 :: cs)); reflexivity.
 Qed.
 
 (* ------------------------------------------------------------------ what Match answers, in terms of the regex string *)
@@ -137,6 +164,66 @@ Proof.
   rewrite E. reflexivity.
 Qed.
 
+(* ------------------------------------------------------------------ the flags SetPattern computes *)
+
+Lemma set_pattern_fields : forall engine st0 p,
+  s_multi (fst (set_pattern engine st0 p true)) = fst (can_match_multiple p) /\
+  s_negate (fst (set_pattern engine st0 p true)) = fst (strip_negate p) /\
+  s_ranges (fst (set_pattern engine st0 p true)) = fst (fst (simple_body (snd (strip_negate p)))).
+Proof.
+  intros engine [p0 v0 n0 m0 s0 u0 r0 x0] p. unfold set_pattern.
+  destruct (can_match_multiple p) as [multi only].
+  destruct (strip_negate p) as [neg str]. cbn [fst snd].
+  destruct (simple_body str) as [[ranges rp] str']. cbn [fst snd].
+  destruct v0, ranges as [|r1 rs], rp as [|c0 cs], str' as [|d0 ds];
+    cbv [free_regex set_uvlist set_regex set_ranges set_negate set_multi set_pat fst snd is_nil
+         s_pattern s_valid s_negate s_multi s_simple s_uvlist s_ranges s_regexp app];
+    try (repeat split; reflexivity);
+    match goal with |- context [engine ?x] => destruct (engine x) end; repeat split; reflexivity.
+Qed.
+
+Lemma cw_head_ok : forall p, fst (can_match_multiple p) = false -> head_ok p = true.
+Proof.
+  intros [|c t] H; [reflexivity|]. unfold can_match_multiple in H.
+  destruct tbl_cw_chars as (_ & _ & Tr). rewrite Tr in H.
+  destruct (c =? 96) eqn:E96; [discriminate H|].
+  cbn [head_ok]. change ch_backtick with 96. rewrite E96.
+  destruct (c =? ch_bsl) eqn:Eb.
+  - apply N.eqb_eq in Eb. subst c. reflexivity.
+  - rewrite (cw_cons_other c t true false Eb) in H.
+    destruct (c =? 45) eqn:E45.
+    + apply N.eqb_eq in E45. subst c. reflexivity.
+    + cbn [negb andb] in H. destruct (is_regex_token c true) eqn:Et.
+      * destruct (c =? 44); [rewrite cw_saw_true in H; discriminate | discriminate].
+      * destruct (nontoken_first_head c Et) as (H1 & _ & H3). rewrite H1, H3. reflexivity.
+Qed.
+
+Lemma cw_loop_of_multi : forall p, fst (can_match_multiple p) = false -> fst (cw_loop p true false false) = false.
+Proof.
+  intros [|c t] H; [reflexivity|]. unfold can_match_multiple in H.
+  destruct (c =? c_cw_rawregex_char); [discriminate H | exact H].
+Qed.
+
+Lemma regex_string_head_ok : forall p,
+  head_ok p = true ->
+  regex_string p true = Some (c_sp_regex_prefix ++ tr_loop p false ++ c_sp_regex_suffix).
+Proof.
+  intros p H. unfold regex_string. rewrite head_ok_strip by exact H. cbn [snd].
+  rewrite head_ok_body by exact H. cbn [is_nil]. rewrite regex_of_simple_nonnil.
+  unfold regex_of_simple. rewrite skip_noop. reflexivity.
+Qed.
+
+Lemma unique_iff : forall engine st0 p,
+  is_unique (fst (set_pattern engine st0 p true)) = true <-> fst (can_match_multiple p) = false.
+Proof.
+  intros engine st0 p. unfold is_unique.
+  destruct (set_pattern_fields engine st0 p) as (Em & En & Er). rewrite Em, En, Er. split.
+  - intros H. apply andb_true_iff in H as [_ H]. apply negb_true_iff in H. apply orb_false_iff in H as [H _]. exact H.
+  - intros H. pose proof (cw_head_ok p H) as Hh.
+    rewrite head_ok_strip by exact Hh. cbn [fst snd]. rewrite head_ok_body by exact Hh. cbn [fst is_nil].
+    rewrite H. reflexivity.
+Qed.
+
 Section Engine.
   Variable engine : list N -> rx.
   (* libc regcomp/regexec behave as Pat/Ere.v on every regex string inside that model *)
@@ -162,4 +249,54 @@ Section Engine.
       destruct (ere_exec (wrap (close_frame (fr_alt al f0))) s); split; congruence.
     - rewrite xorb_false_l. exact Em.
   Qed.
+
+  (* a pattern reported unique matches RemoveEscapeChars(pattern) and nothing else *)
+  Theorem unique_exact : forall p st0 t,
+    is_unique (fst (set_pattern engine st0 p true)) = true ->
+    (matches (fst (set_pattern engine st0 p true)) t = true <-> t = unescape p).
+  Proof.
+    intros p st0 t Hu. apply unique_iff in Hu.
+    pose proof (cw_head_ok p Hu) as Hh.
+    rewrite (matches_simple_regex engine st0 p _ t (regex_string_head_ok p Hh)).
+    rewrite head_ok_strip by exact Hh. cbn [fst]. rewrite xorb_false_l.
+    pose proof (compile_unique p (cw_loop_of_multi p Hu)) as Ec.
+    rewrite engine_is_ere by (rewrite Ec; discriminate).
+    unfold ere_engine. rewrite Ec. rewrite ere_exec_anchored. apply chain_exact.
+  Qed.
+
+  Theorem unique_sound : forall p st0 t,
+    is_unique (fst (set_pattern engine st0 p true)) = true ->
+    matches (fst (set_pattern engine st0 p true)) t = true -> t = unescape p.
+  Proof. intros p st0 t Hu Hm. apply (unique_exact p st0 t Hu). exact Hm. Qed.
+
+  (* "can this pattern match more than one string" answers yes whenever two different strings match *)
+  Theorem multi_complete : forall p st0 t1 t2,
+    matches (fst (set_pattern engine st0 p true)) t1 = true ->
+    matches (fst (set_pattern engine st0 p true)) t2 = true ->
+    t1 <> t2 ->
+    is_unique (fst (set_pattern engine st0 p true)) = false.
+  Proof.
+    intros p st0 t1 t2 H1 H2 Hne.
+    destruct (is_unique (fst (set_pattern engine st0 p true))) eqn:Hu; [|reflexivity].
+    exfalso. apply Hne. rewrite (unique_sound p st0 t1 Hu H1), (unique_sound p st0 t2 Hu H2). reflexivity.
+  Qed.
+
+  Theorem escape_unique : forall s st0, is_unique (fst (set_pattern engine st0 (escape s) true)) = true.
+  Proof. intros s st0. apply unique_iff. rewrite cw_escape. reflexivity. Qed.
+
+  (* escaping a string yields a pattern that matches that string and no other *)
+  Theorem escape_exact : forall s st0 t,
+    matches (fst (set_pattern engine st0 (escape s) true)) t = true <-> t = s.
+  Proof.
+    intros s st0 t. rewrite (unique_exact (escape s) st0 t (escape_unique s st0)).
+    rewrite unescape_escape. tauto.
+  Qed.
 End Engine.
+
+(* ------------------------------------------------------------------ an example pattern for the non-vacuity checks *)
+
+(* a well-formed pattern using every construct:  a?*[^b-dx](\*|e,f.)  *)
+Definition ex_alt : salt :=
+  SLast (SCons (SLit 97) (SCons SOne (SCons SRun (SCons (SClass true [(98, 100); (120, 120)])
+        (SCons (SGroup (SMore (SCons (SEsc 42) SNil) false (SMore (SCons (SLit 101) SNil) true (SLast (SCons (SLit 102) (SCons (SLit 46) SNil))))))
+         SNil))))).
